@@ -97,6 +97,9 @@ UnLayer(fam, S) ==
          \cup {<<"collect", r, "vec">> : r \in Reps(S, {<<0, Inf>>})}
          \cup {<<"exact", r, n>> : r \in Reps(S, {<<0, Inf>>, <<0, 1>>}), n \in {2, 3}}
          \cup {<<"grouparr", <<a>>>> : a \in S} \cup {<<"recover", a, <<"via", <<"to", <<"any">>, "r">>>>>> : a \in S}
+    \* C10: shapes that make the cursor jump back and forth over the input (rewinds to an earlier and then to a
+    \* later saved position), which is what the caching / seeking input kinds have to get right
+    [] fam = "seek" -> Un(S, {"ornot", "rewind", "tospan"})
     [] fam = "nst" ->
          Un(S, {"ornot"}) \cup {<<"nested", a, b>> : a \in S, b \in NestB}
          \cup {<<"collect", r, "vec">> : r \in Reps(S, {<<0, Inf>>})}
@@ -119,6 +122,7 @@ BinLayer(fam, S1, S2) ==
     [] fam = "memo" -> Bin(S1, S2, {"then", "or", "andis"})
     [] fam = "ctx" -> Bin(S1, S2, {"then", "or", "thenctx", "ignctx"})
     [] fam = "nst" -> Bin(S1, S2, {"then", "or"})
+    [] fam = "seek" -> Bin(S1, S2, {"then", "andis", "or"})
     [] fam = "drp" -> Bin(S1, S2, {"then", "or"})
                       \cup {<<"grouparr", <<a, b>>>> : a \in S1, b \in S2} \cup {<<"group", <<a, b>>>> : a \in S1, b \in S2}
                       \cup {<<"foldl", a, <<"rep", b, 0, Inf>>, "g">> : a \in S1, b \in {x \in S2 : ~CanEmpty(x)}}
@@ -141,6 +145,7 @@ LeavesOf(fam) ==
     [] fam = "lbl" -> {J("a"), J("b"), JJ("a", "b"), <<"any">>, <<"end">>, <<"cust", 1, FALSE>>}
     [] fam = "memo" -> {J("a"), J("b"), JJ("a", "b"), <<"any">>, <<"cust", 1, FALSE>>}
     [] fam = "drp" -> {J("a"), <<"map", <<"any">>, "f">>, <<"to", J("b"), "k">>, <<"sel", <<"a">>>>}
+    [] fam = "seek" -> {J("a"), JJ("a", "b"), <<"any">>}
     [] fam = "nst" -> {J("a"), J("b"), <<"any">>, <<"validate", <<"any">>, "1", "F">>, <<"cust", 1, FALSE>>}
     [] fam = "ctx" -> {J("a"), JJ("a", "b"), <<"any">>, <<"cfgjust">>, <<"cfgjustr">>, <<"mw", <<"any">>>>}
 
@@ -189,6 +194,9 @@ RShapes ==
   \cup {<<"foldl", J("a"), it, "g">> : it \in {x \in RReps : x[2] = <<"any">>}}
   \cup {<<"foldr", it, J("a"), "g">> : it \in {x \in RReps : x[2] = J("a")}}
   \cup {<<"withctx", VI(n), <<"collect", <<"cfgrep", <<"rep", a, 0, Inf>>>>, "vec">>>> : n \in 0..2, a \in RItems}
+  \* configure() overrides at_least / at_most individually, also with 0, whatever the static bounds were
+  \cup {<<"withctx", VI(n), <<"collect", <<cf, <<"rep", J("a"), b[1], b[2]>>>>, "vec">>>> :
+           n \in 0..2, cf \in {"cfgrep", "cfgrepmin", "cfgrepmax"}, b \in {<<1, Inf>>, <<2, 2>>, <<0, 1>>, <<1, 2>>}}
 RepTemplates == RShapes \cup {<<"then", sh, RestCap>> : sh \in RShapes}
 (* Pratt (C09): operator tables over symbols + - * ! ~ ^ with powers 0..3, same symbol allowed *)
 (* as prefix and infix; atoms a / b                                                              *)
